@@ -38,7 +38,7 @@ impl<'a> Encoding<'a> for WindowsEncoding {
         let (prefix_len, verbatim) = match Self::components(path).prefix() {
             Some(prefix) => {
                 prefix.hash(h);
-                (prefix.len(), prefix.kind().is_verbatim())
+                (prefix.len(), path.starts_with(br"\\?\"))
             }
             None => (0, false),
         };
@@ -49,9 +49,9 @@ impl<'a> Encoding<'a> for WindowsEncoding {
 
         for i in 0..bytes.len() {
             let is_sep = if verbatim {
-                path[i] == SEPARATOR as u8
+                bytes[i] == SEPARATOR as u8
             } else {
-                path[i] == SEPARATOR as u8 || path[i] == ALT_SEPARATOR as u8
+                bytes[i] == SEPARATOR as u8 || bytes[i] == ALT_SEPARATOR as u8
             };
             if is_sep {
                 if i > component_start {
